@@ -219,7 +219,10 @@ def check (ps : PState) (evLine : String) (obs : List String) (fault : Option St
     let gone := prev.sess.filter fun s => (d.live s.up).isNone || ((d.live s.up).map (·.cp)) != some s.cp
     let justified (s : DSess) : Bool :=
       if typ == "recv" && kind == "del" then s.up == seid
-      else if typ == "recv" && kind == "assoc" then s.node == lookD m "node" "-"
+      else if typ == "recv" && kind == "assoc" then
+        -- (the table dump prints IPv6 / FQDN node ids without the event line's type tag)
+        let n := lookD m "node" "-"
+        s.node == n || s!"6:{s.node}" == n || s!"f:{s.node}" == n
       else if typ == "recv" && kind == "srrsp" && seid == 0 then
         match ps.outst.find? (·.1 == (peer, seq)) with
         | some o => s.cp == o.2.2 && s.naddr == s!"p{peer}"
